@@ -226,8 +226,8 @@ def grid(tier):
 
 def shards(tier, seed):
     g = grid(tier)
-    # heaviest first so that the pool stays balanced
-    return sorted(g, key=lambda s: (-s[0], s[1], s[5]))
+    # simplest first, so that the first recorded counterexample of a descriptor is a short one
+    return sorted(g, key=lambda s: (s[0], s[1], s[5]))
 
 
 def steps_for(L, steps):
